@@ -162,3 +162,61 @@ func init() {
 		return fail(fmt.Sprintf("C03/stack-overflow/nesting-%d", c.N), "child died: %v\n%s", err, firstN(string(out), 800))
 	})
 }
+
+func init() { registerReplay("c03-pair", checkC03Pair) }
+
+// checkC03Pair: comparing two terms never panics (either way round, alone and next to a distractor).
+func checkC03Pair(c PairCase) Outcome {
+	for _, call := range []struct {
+		e string
+		l []string
+	}{{c.A.Text, []string{c.B.Text}}, {c.B.Text, []string{c.A.Text}}, {c.A.Text + " OR MIT", []string{"ISC", c.B.Text}}} {
+		if r := Satisfies(call.e, call.l); r.Panic != "" {
+			return fail("C03/panic/pair/"+c.A.Text+" | "+c.B.Text, "Satisfies(%q, %q) panicked: %s", call.e, call.l, r.Panic)
+		}
+	}
+	return pass()
+}
+
+// TestC03_Pairs: the version comparison is only reached by two related terms, so related terms are
+// enumerated: every pair of listed ids that share a name stem (inside or outside the family table)
+// x {plain, +} on both sides.
+func TestC03_Pairs(t *testing.T) {
+	rec := NewRecorder("C03", "pairs", "EVERY ordered pair of listed license ids sharing a name stem (in or out of the family table) x {plain,+} on both sides, plus every id against itself with '+': Satisfies either way round and next to a distractor, under recover(); oracle: no panic; non-trivial = different ids; distinct by pair")
+	rec.Exhaustive = true
+	defer rec.Finish(t)
+	tb := Tbl()
+	byStem := map[string][]string{}
+	for _, id := range tb.AllLic {
+		stem := id
+		if v := ParseVer(id); v.OK {
+			stem = v.Stem
+		} else if i := strings.Index(id, "-"); i > 0 {
+			stem = id[:i]
+		}
+		byStem[stem] = append(byStem[stem], id)
+	}
+	var jobs []PairCase
+	for _, group := range byStem {
+		if len(group) > 40 {
+			group = group[:40]
+		}
+		for _, x := range group {
+			for _, y := range group {
+				for _, fx := range []string{"", "+"} {
+					for _, fy := range []string{"", "+"} {
+						jobs = append(jobs, PairCase{A: tb.MakeLicTerm(x, fx, 0, "", 0, "", ""), B: tb.MakeLicTerm(y, fy, 0, "", 0, "", "")})
+					}
+				}
+			}
+		}
+	}
+	parallelFor(len(jobs), func(i int) {
+		out := checkC03Pair(jobs[i])
+		rec.Case(jobs[i].A.Base != jobs[i].B.Base, jobs[i].A.Text+"|"+jobs[i].B.Text, jobs[i].A.Text+" | "+jobs[i].B.Text)
+		rec.Count(2)
+		if !out.OK {
+			rec.Violate("c03-pair", out.Key, out.Msg, jobs[i])
+		}
+	})
+}
